@@ -377,7 +377,11 @@ def run(tier, seed):
                 elif how == "prepend-append":
                     # repositories are added one at a time, at either end, with look-ups in between
                     env = Environment(name="x", base_dir=scratch, repos=[])
-                    objs = [ConfigurationRepository(name="r%d" % i, clusters={"cl%d" % nm: FunctionCluster(config=cl(nm, t)) for nm, t in row}) for i, row in enumerate(repos_spec)]
+                    # repository names may repeat (a set-up step that is run again): every added repository still takes the
+                    # end of the priority list it was added at
+                    rep_names = rng.random() < 0.5
+                    objs = [ConfigurationRepository(name="r%d" % (i % 2 if rep_names else i), clusters={"cl%d" % nm: FunctionCluster(config=cl(nm, t)) for nm, t in row}) for i, row in enumerate(repos_spec)]
+                    stats["repeated_repo_names"] = stats.get("repeated_repo_names", 0) + (1 if rep_names and len(objs) > 2 else 0)
                     current = []
                     for r, row in zip(objs, repos_spec):
                         if rng.random() < 0.5:
